@@ -414,41 +414,49 @@ pub fn conforms(s: &Schema, fields: &[Field], _is_union: bool, v: &TVal) -> Opti
 
 /// does the type (transitively) contain a list whose elements own heap memory?
 /// (used to attribute leak observations to the known list-decode defect)
-pub fn reaches_list_of_heap(s: &Schema, sh: &Shape) -> bool {
-    fn heap(s: &Schema, ty: &Ty, seen: &mut Vec<usize>) -> bool {
+pub fn reaches_list_of_heap(s: &Schema, sh: &Shape, keep: bool) -> bool {
+    // with keep_unknown_fields every struct-like owns heap memory (its `_unknown_fields` deque)
+    if keep {
+        return reaches_list_of_heap_inner(s, sh, &|d| !matches!(s.defs[d].kind, Kind::Enum(_) | Kind::Typedef(_)));
+    }
+    reaches_list_of_heap_inner(s, sh, &|_| false)
+}
+
+fn reaches_list_of_heap_inner(s: &Schema, sh: &Shape, struct_owns_heap: &dyn Fn(usize) -> bool) -> bool {
+    fn heap(s: &Schema, ty: &Ty, seen: &mut Vec<usize>, soh: &dyn Fn(usize) -> bool) -> bool {
         match s.resolve(ty) {
             Ty::Str | Ty::Bin | Ty::List(_) | Ty::Set(_) | Ty::Map(..) => true,
             Ty::Ref(d) => {
-                if seen.contains(d) {
+                if soh(*d) || seen.contains(d) {
                     return true;
                 }
                 seen.push(*d);
                 let def = &s.defs[*d];
                 match def.kind {
                     Kind::Enum(_) => false,
-                    _ => def.fields.iter().any(|f| heap(s, &f.ty, seen)),
+                    _ => def.fields.iter().any(|f| heap(s, &f.ty, seen, soh)),
                 }
             }
             _ => false,
         }
     }
-    fn go(s: &Schema, ty: &Ty, seen: &mut Vec<usize>) -> bool {
+    fn go(s: &Schema, ty: &Ty, seen: &mut Vec<usize>, soh: &dyn Fn(usize) -> bool) -> bool {
         match s.resolve(ty) {
-            Ty::List(t) => heap(s, t, &mut vec![]) || go(s, t, seen),
-            Ty::Set(t) => go(s, t, seen),
-            Ty::Map(k, v) => go(s, k, seen) || go(s, v, seen),
+            Ty::List(t) => heap(s, t, &mut vec![], soh) || go(s, t, seen, soh),
+            Ty::Set(t) => go(s, t, seen, soh),
+            Ty::Map(k, v) => go(s, k, seen, soh) || go(s, v, seen, soh),
             Ty::Ref(d) => {
                 if seen.contains(d) {
                     return false;
                 }
                 seen.push(*d);
-                s.defs[*d].fields.iter().any(|f| go(s, &f.ty, seen))
+                s.defs[*d].fields.iter().any(|f| go(s, &f.ty, seen, soh))
             }
             _ => false,
         }
     }
     match sh {
-        Shape::Def(i) => go(s, &Ty::Ref(*i), &mut vec![]),
-        _ => s.target_fields(sh).0.iter().any(|f| go(s, &f.ty, &mut vec![])),
+        Shape::Def(i) => go(s, &Ty::Ref(*i), &mut vec![], struct_owns_heap),
+        _ => s.target_fields(sh).0.iter().any(|f| go(s, &f.ty, &mut vec![], struct_owns_heap)),
     }
 }
